@@ -28,6 +28,7 @@ type CircuitOpts struct {
 	ZeroWidth bool
 	FixedOuts int // if > 0: exactly this many declared outputs
 	ANDHeavy  bool
+	INVHeavy  bool // three gates in five are INV (circuits converted from other tools' formats)
 }
 
 func uintType(bits int) types.Info {
@@ -124,6 +125,9 @@ func Circuit(t *rt.Tape, o CircuitOpts) *circuit.Circuit {
 	ops := []circuit.Operation{circuit.XOR, circuit.XNOR, circuit.AND, circuit.OR, circuit.INV}
 	if o.GMW {
 		ops = []circuit.Operation{circuit.XOR, circuit.XNOR, circuit.AND, circuit.INV}
+	}
+	if o.INVHeavy {
+		ops = append(ops, circuit.INV, circuit.INV, circuit.INV, circuit.INV, circuit.INV)
 	}
 	shape := t.Choose(rt.SGen, 11)
 	if o.ANDHeavy {
